@@ -5,6 +5,8 @@ CONSTANTS
   Clients = {"c1"}
   MaxOps = 6
   NamesSurviveExit = FALSE
+  OpKinds = {"spawn", "register", "unregister", "send", "kill", "send_name", "link", "unlink", "monitor", "demonitor"}
+  PreSpawn = FALSE
   Sequential = TRUE
 CHECK_DEADLOCK FALSE
 INVARIANT NameFreedAfterExit
